@@ -387,7 +387,8 @@ GENOMIC_OPS_I = [(2, "ivals"), (2, "mask"), (3, "pileup"), (2, "pileup_sum"), (2
                  (2, "multi_two_sources"), (2, "location_windows"), (1, "pileup_arith")]
 GENOMIC_OPS_B = [(3, "track"), (2, "track_sum"), (2, "track_hist"), (2, "track_at_windows"),
                  (2, "track_at_stream_windows"), (2, "track_mean_cols"), (1, "track_mean_rows"), (1, "track_arith"),
-                 (1, "track_gt"), (1, "from_track"), (1, "multi_track_tuple"), (2, "track_sum_rows"), (1, "track_max_rows")]
+                 (1, "track_gt"), (1, "from_track"), (1, "multi_track_tuple"), (2, "track_sum_rows"), (1, "track_max_rows"),
+                 (3, "track_sum_rows")]      # (appended, not re-weighted: stored tapes keep their meaning)
 
 
 # constant on either side of commutative and non-commutative operators, explicit ufunc calls, unary minus
@@ -441,6 +442,9 @@ def build_genomic(ctx, tape, cap, source):
         params["t"] = tape.draw(3, "g.t")
     if op in ("track_gt", "from_track"):
         params["t"] = [0.0, 0.5, 1.0, 2.0][tape.draw(4, "g.t")]
+    if op in ("track_sum_rows", "track_mean_rows") and tape.feature("c11_axis_form"):
+        # how the axis is handed over: keyword, positional, or through the numpy function
+        params["axis_form"] = ["kw", "pos", "np_kw", "np_pos", "kw1"][tape.draw(5, "g.axis_form")]
     if op in ("track_arith", "pileup_arith"):
         params["expr"] = ARITH[tape.draw(len(ARITH), "g.expr")]
     if op == "location_windows":
@@ -576,10 +580,20 @@ def build_genomic(ctx, tape, cap, source):
             x = tr[w]
             if op == "track_mean_cols":
                 x = x.mean(axis=0)
-            elif op == "track_mean_rows":
-                x = x.mean(axis=-1)
-            elif op == "track_sum_rows":
-                x = x.sum(axis=-1)
+            elif op in ("track_mean_rows", "track_sum_rows"):
+                form = params.get("axis_form", "kw")
+                name = "mean" if op == "track_mean_rows" else "sum"
+                npf = np.mean if name == "mean" else np.sum
+                if form == "kw":
+                    x = getattr(x, name)(axis=-1)
+                elif form == "kw1":
+                    x = getattr(x, name)(axis=1)
+                elif form == "pos":
+                    x = getattr(x, name)(-1)
+                elif form == "np_kw":
+                    x = npf(x, axis=-1)
+                else:
+                    x = npf(x, -1)
             elif op == "track_max_rows":
                 x = x.max(axis=-1)
             return S.dense(fin(x))
@@ -831,6 +845,17 @@ def single_chunk_baseline(case, base):
     if case.family != "genomic":
         return
     one = call(case.compute, base, True)
+    if raised(one) and case.params.get("axis_form", "kw") != "kw":
+        # the same reduction with the axis spelled as a keyword is the control: one spelling working and the other
+        # raising is a difference between two forms of one computation, not an unsupported pipeline
+        form = case.params["axis_form"]
+        case.params["axis_form"] = "kw"
+        control = call(case.compute, base, True)
+        case.params["axis_form"] = form
+        if not raised(control):
+            raise Violation("stream_eq_memory", f"genomic.{case.op}:raises_for_this_axis_spelling",
+                            {"case": case.describe() if hasattr(case, "describe") else case.op, "axis_form": form,
+                             "error": repr(one)})
     if raised(one):
         raise Inconclusive(f"stream=True form raises even for a single chunk: {case.family}.{case.op} "
                            f"({base.kind}{', stranded' if case.params.get('stranded') else ''}): {one.type}")
